@@ -172,7 +172,7 @@ def program(u):
                 a, b = min(n0, (rank % u["b"]) * c), min(n0, (rank % u["b"] + 1) * c)
                 p.grad = DTensor.from_local(g[a:b].clone(), mesh, [Replicate(), Shard(0)], run_check=False, shape=g.shape, stride=g.stride())
         opt.step()
-        return {"msgs": msgs, "sel": sel, "spans": spans, "seg": seg, "grank": grank, "group": (rank % u["b"], (rank // u["b"]) // gsize) if kind != "ddp" else rank // u["b"], "nstate": len(have), "nblocks": len(blocks)}
+        return {"msgs": msgs, "sel": sel, "spans": spans, "seg": seg, "grank": grank, "group": (rank % u["b"], (rank // u["b"]) // gsize) if kind != "ddp" else rank // u["b"], "nstate": len(have), "nblocks": len(blocks), "have": sorted((pi, str(k)) for pi, k in have)}
 
     return fn
 
@@ -209,6 +209,10 @@ def run_case(u):
                 if not (gr * seg <= a and b <= (gr + 1) * seg):
                     msgs.append(f"{what}: buffer of block {i} bytes [{a},{b}) lies outside its owner's segment [{gr * seg},{(gr + 1) * seg})")
                     break
+            keys = [tuple(k) for r in rs for k in s.results[r]["have"]]
+            if len(keys) != len(set(keys)):
+                dup = sorted({k for k in keys if keys.count(k) > 1})[:3]
+                msgs.append(f"{what}: group {gid}: optimizer state for the block ids {dup} exists on more than one rank (a block's state must live on exactly one rank, under its own id)")
             if sum(s.results[r]["nstate"] for r in rs) != s.results[rs[0]]["nblocks"]:
                 msgs.append(f"{what}: group {gid}: optimizer state blocks per rank {[s.results[r]['nstate'] for r in rs]} do not sum to the number of blocks {s.results[rs[0]]['nblocks']}")
     key = common.h64(what, [s.results[r]["spans"] if s.results[r] else None for r in range(W)])
